@@ -323,7 +323,7 @@ func flip(raw []byte, byteIdx, bit int) []byte {
 func TestC07(t *testing.T) {
 	env := kit.GetEnv()
 	rep := kit.NewReport("C07", env)
-	rep.Rule = "per ping kind (hello req/resp, pong req/resp, error codes 0-4 + unknown, disconnect going-down/list, announce with 0 and 1 hop), produced by the real sender code of peer X in a fresh 6-router world: (a) every single-bit flip of every authenticated header byte (all except TTL/flow), the length fields and the signature/MAC, and one bit per body byte (thorough: all bits); (b) source rewritten to each other known identity, destination rewritten; (c) same ping re-built and sealed by another router claiming X's address; (c2) a relayed announcement whose delivering peer forges an inner hop record of a router the receiver already knows, with its own key embedded; (d) first-contact variants with header key right / wrong / for another address; (e) replay of the exact frame after {nothing, a newer valid ping from X, a ping from Y, +31 s, a newer valid ping of each of the other kinds from X}; (f) the valid ping itself with its type-specific effect bound; snapshot = table + sessions(keys, MTU) + stored info/offline flags + connection verdicts; non-trivial = mutation hits an authenticated byte or the case must be rejected; states = distinct snapshots observed"
+	rep.Rule = "per ping kind (hello req/resp, pong req/resp, error codes 0-4 + unknown, disconnect going-down/list, announce with 0 and 1 hop), produced by the real sender code of peer X in a fresh 6-router world: (a) every single-bit flip of every authenticated header byte (all except TTL/flow), the length fields and the signature/MAC, and one bit per body byte (thorough: all bits); (b) source rewritten to each other known identity, destination rewritten; (c) same ping re-built and sealed by another router claiming X's address; (c2) a relayed announcement whose delivering peer forges an inner hop record of a router the receiver already knows, with its own key embedded; (d) first-contact variants with header key right / wrong / for another address; (e) replay of the exact frame after {nothing, a newer valid ping from X, a ping from Y, +31 s, 61 min of idle time + the session cleaner, a newer valid ping of each of the other kinds from X}; (f) the valid ping itself with its type-specific effect bound; snapshot = table + sessions(keys, MTU) + stored info/offline flags + connection verdicts; non-trivial = mutation hits an authenticated byte or the case must be rejected; states = distinct snapshots observed"
 	rep.Assumptions = []string{
 		"state is observed through exported accessors plus the VerifEntries hook; pending-ping bookkeeping (active hello/pong ids, error rate limiter) is not part of the statement's state list",
 		"disconnect pings are addressed to the router itself: as emitted by the real sender (unicast type to the multicast address) they are never dispatched to the disconnect handler at all",
@@ -520,7 +520,7 @@ func TestC07(t *testing.T) {
 			}
 		}
 		// (e) replays.
-		betweens := []string{"nothing", "newer-ping-from-X", "ping-from-Y", "clock+31s"}
+		betweens := []string{"nothing", "newer-ping-from-X", "ping-from-Y", "clock+31s", "session-expiry(61min-idle+cleaner)"}
 		for _, other := range ks {
 			if other.sender == "" && !other.hop {
 				betweens = append(betweens, "kind:"+other.name)
@@ -553,6 +553,10 @@ func TestC07(t *testing.T) {
 					tw.w.Inject(tw.y, tw.r, b)
 				case "clock+31s":
 					time.Sleep(31 * time.Second)
+				case "session-expiry(61min-idle+cleaner)":
+					// the receiver's session cleaner drops sessions that were idle for an hour.
+					time.Sleep(61 * time.Minute)
+					tw.r.State().VerifCleanSessions()
 				default:
 					// another valid, newer ping of the given kind from the same router.
 					time.Sleep(2 * time.Millisecond)
